@@ -351,11 +351,12 @@ Definition distribute_guaranteed_tickets (v2 : bool) (e : env) (b : nat) (w : wo
   do_ require (fl_selected s);
   do_ require (negb (fl_additional s));
   do l <- load_gt_op w;
-  let (o0, w0) := l in
+  let (o0, wl) := l in
+  let w0 := set_st wl (st wl <| op := OpNone |>) in
   do r <- gt_distribution v2 b w0 o0;
   let '(w1, o1, completed, _) := r in
   if completed then
-    let w2 := finish_gt (set_st w1 (st w1 <| op := OpNone |> <| fl_additional := true |>)) o1 in
+    let w2 := finish_gt (set_st w1 (st w1 <| fl_additional := true |>)) o1 in
     Ok ((if v2 then emit w2 EvDistributeDone (event_hdr e ++ [g_additional o1]) else w2), 0)
   else Ok (set_st w1 (st w1 <| op := OpExtra (XGt o1) |>), 1).
 
